@@ -45,9 +45,10 @@ type ProxyParams struct {
 	BigBodies    bool
 	ProtoTimeout bool // requests carry a protocol-level timeout
 	WorkerPool   bool
-	IdleCloses   int  // upstream connections closed by the peer at random instants (whatever their state)
-	Garbage      int  // client connections that send malformed input (C08)
-	UpGarbage    bool // upstreams may answer with malformed bytes (C08)
+	IdleCloses   int          // upstream connections closed by the peer at random instants (whatever their state)
+	Garbage      int          // client connections that send malformed input (C08)
+	UpGarbage    bool         // upstreams may answer with malformed bytes (C08)
+	Filters      []FilterSpec // scripted stream filters on the listener (C14)
 }
 
 // Proxy is the W-proxy world.
@@ -117,6 +118,13 @@ func DrawProxyParams(ch *sim.Choices, prop string) ProxyParams {
 	p.WorkerPool = !ch.Bool("params", "noworkerpool")
 	p.ConnTimeoutS = pickFrom(ch, "params", "conntimeout", []int{0, 1, 3})
 	p.BigBodies = ch.Chance("params", "big", 1, 4)
+	if prop == "C14" || (prop == "C03" && ch.Chance("params", "filters", 1, 5)) {
+		// f0 is a plain tagger in front (it lets the oracle attribute send-filter calls)
+		p.Filters = []FilterSpec{{Name: "f0", Phase: 0, Send: ch.Bool("params", "f0send")}}
+		for i, n := 1, ch.Pick("params", "nfilters", 6); i <= n; i++ {
+			p.Filters = append(p.Filters, FilterSpec{Name: fmt.Sprintf("f%d", i), Phase: ch.Pick("params", "fphase", 4) - 1, Send: ch.Bool("params", "fsend")})
+		}
+	}
 	if prop == "C08" {
 		p.Faults = true
 		p.Garbage = 1 + ch.Pick("params", "ngarbage", 3)
@@ -235,6 +243,13 @@ func (w *Proxy) buildConfig() []byte {
 	}
 	if p.ReadBuf > 0 {
 		lis["default_read_buffer_size"] = p.ReadBuf
+	}
+	if len(p.Filters) > 0 {
+		var sf []J
+		for _, f := range p.Filters {
+			sf = append(sf, J{"type": "verif_scripted", "config": J{"name": f.Name, "phase": f.Phase, "send": f.Send}})
+		}
+		lis["stream_filters"] = sf
 	}
 	cfg := J{
 		"close_graceful": true,
@@ -363,6 +378,8 @@ func (w *Proxy) Setup() error {
 	w.N.Latency = w.latency
 	// MOSN's own PRNGs are seeded from the (fake) clock at creation: make it differ per seed.
 	time.Sleep(time.Duration(1+ch.Pick("params", "clockskew", 1000)) * time.Microsecond)
+	RegisterScriptedFilter()
+	FLog = &filterLog{}
 	w.cfgJSON = w.buildConfig()
 	if _, err := StartMosn(w.cfgJSON); err != nil {
 		return err
@@ -488,18 +505,25 @@ func (w *Proxy) quiescent() {
 	if now < w.lastSend || w.sendsPending > 0 {
 		return
 	}
-	all := true
-	maxB := w.lastSend + time.Second
+	// final once every request is resolved, or overdue (its liveness bound expired: it
+	// will be flagged), or queued behind an overdue request of its own client
+	wait := false
+	overdue := map[string]bool{}
 	for _, r := range w.H.Reqs {
-		if !w.resolved(r) {
-			all = false
-		}
-		if r.SentAt > 0 {
-			if b := r.SentAt + w.bound(r); b > maxB {
-				maxB = b
+		if !w.resolved(r) && r.SentAt > 0 {
+			if now < r.SentAt+w.bound(r) {
+				wait = true
+			} else {
+				overdue[r.Client] = true
 			}
 		}
 	}
+	for _, r := range w.H.Reqs {
+		if r.Queued && !overdue[r.Client] {
+			wait = true
+		}
+	}
+	all, maxB := !wait, now+time.Hour
 	if all || now >= maxB {
 		w.finalSet = true
 		// settle: long enough for every timer of MOSN related to these requests to have fired
@@ -682,6 +706,9 @@ func (w *Proxy) setupXClient(ci int, proto string, reqIdxP *int) {
 				f.Timeout = int32(pickFrom(ch, "work", "ptimeout", []int{0, 30, 300, 3000}))
 			}
 			f.Headers = []peers.KV{{K: "service", V: fmt.Sprintf("svc%d", k%3)}, {K: "tok", V: tok}}
+			if fv := w.drawVerdicts(r); fv != "" {
+				f.Headers = append(f.Headers, peers.KV{K: "x-fv", V: fv})
+			}
 			for x := ch.Pick("work", "nhdr", 4); x > 0; x-- {
 				f.Headers = append(f.Headers, peers.KV{K: fmt.Sprintf("k%d", x), V: hex.EncodeToString(ch.Bytes("work", ch.Pick("work", "hl", 20)))})
 			}
@@ -768,6 +795,9 @@ func (w *Proxy) setupH1Client(ci int, reqIdxP *int) {
 			m.Target = pickFrom(ch, "work", "target", h1Targets)
 			r.Method, r.Target = m.Method, m.Target
 			m.Headers = []peers.KV{{K: "Host", V: "svc.test"}, {K: "X-Tok", V: tok}, {K: "service", V: fmt.Sprintf("svc%d", k%3)}, {K: "User-Agent", V: "verif/1"}, {K: "Content-Type", V: "application/x-verif"}}
+			if fv := w.drawVerdicts(r); fv != "" {
+				m.Headers = append(m.Headers, peers.KV{K: "X-Fv", V: fv})
+			}
 			for x := ch.Pick("work", "nhdr", 4); x > 0; x-- {
 				m.Headers = append(m.Headers, peers.KV{K: fmt.Sprintf("X-K%d", x), V: hex.EncodeToString(ch.Bytes("work", 1+ch.Pick("work", "hl", 20)))})
 			}
@@ -924,4 +954,31 @@ func (w *Proxy) setupGarbage() {
 			g.Start(func(pe sim.Peer) *sim.Conn { return w.N.Connect(w.lisAddr, g.Name, pe) })
 		})
 	}
+}
+
+// drawVerdicts draws the per-filter verdicts of request r (C14) and returns the
+// "x-fv" header value; most filters continue.
+func (w *Proxy) drawVerdicts(r *peers.ReqRec) string {
+	if len(w.P.Filters) == 0 {
+		return ""
+	}
+	ch := w.S.Ch
+	if r.Extra == nil {
+		r.Extra = map[string]string{}
+	}
+	var parts []string
+	for _, f := range w.P.Filters[1:] {
+		if f.Phase < 0 || !ch.Chance("work", "fverdict", 1, 3) {
+			continue
+		}
+		v := pickFrom(ch, "work", "fverdictkind", []string{"hijack", "stop", "terminate", "hijackbody", "direct", "rematch", "rechoose", "hijack"})
+		if v == "rematch" && f.Phase != 1 || v == "rechoose" && f.Phase != 2 {
+			v = "continue" // only meaningful in their own phase
+		}
+		if v != "continue" {
+			parts = append(parts, f.Name+":"+v)
+			r.Extra["fv:"+f.Name] = v
+		}
+	}
+	return strings.Join(parts, ",")
 }
